@@ -459,6 +459,13 @@ def run_one(seed, tape, opts):
             if p.result[0] == "err" and took >= 2 * transit.TIMEOUT - 1:
                 deadline_hit = True
     # winners
+    for p_ in (S, R):
+        if not viol and p_.result and p_.result[0] == "ok" and \
+                not isinstance(p_.result[1], transit.Connection):
+            V("C07.connect_result_not_a_connection", "connect() yields the "
+              "one confirmed connection (both results are the two ends of one "
+              "link) or fails", "%s.connect() fired with %r" %
+              (p_.name, p_.result[1]))
     sw = S.result[1] if S.result and S.result[0] == "ok" else None
     rw = R.result[1] if R.result and R.result[0] == "ok" else None
     es = w.end_of_connection(sw) if sw is not None else None
